@@ -237,7 +237,10 @@ Print Assumptions C19_gen_authority_resolved_per_request.
    and only then caches the view (a syntactic fact about the source, not a proof of the engine). *)
 Theorem C19_gen_reads_go_through_admit :
   forallb (fun site => let '(file, fn, _) := site in
-             String.eqb file "kql/mod.rs" && (String.eqb fn "load" || String.eqb fn "candidates"))
+             String.eqb file "kql/mod.rs" &&
+             (String.eqb fn "load" || String.eqb fn "candidates" ||
+              (* judging the present row of an element read at a past coordinate: yields a bool only *)
+              (String.eqb fn "readable_now" && readable_now_only_judges)))
           element_reads = true /\
   element_reads <> [] /\
   load_goes_through_admit = true /\ candidates_goes_through_admit = true /\
